@@ -1364,6 +1364,11 @@ def reader_thread(env, k):
                 ctx.count("refresh.reused_segment_readers")
             if g2 != g:
                 ctx.count("refresh.to_newer_generation")
+                if H.extras(g) != H.extras(g2):
+                    # add_field() / remove_field() committed in between: open readers carry the Schema of their time
+                    ctx.count("refresh.across_schema_change")
+                    if old_segs & new_segs:
+                        ctx.count("refresh.across_schema_change_with_kept_segments")
                 # segments that survive the refresh with OTHER deletions (their open readers must not be re-used as
                 # they are), in particular with the same NUMBER of deletions (un-delete one, delete another)
                 changed = same_count = regrown = 0
